@@ -435,6 +435,10 @@ fn expand_one(kind: &str, attr: &str, src: &str) -> J {
         }
     }
     let mut o = vec![("status", s(&status))];
+    let level = std::env::var("VERIF_HOOK_LEVEL").unwrap_or_default();
+    if level == "status" {
+        return J::O(o);
+    }
     if let Some(ts) = ts {
         // determinism inside one process: expand again, compare token strings
         let (ts2, status2) = run(|| call(attr_ts.clone(), item_ts.clone()));
@@ -451,7 +455,9 @@ fn expand_one(kind: &str, attr: &str, src: &str) -> J {
                 o.push(("parsed", J::B(true)));
                 o.push(("passthrough", passthrough(kind, &item_ts, f.items.first())));
                 o.push(("first", f.items.first().map(item_j).unwrap_or(J::Null)));
-                o.push(("items", J::A(f.items.iter().skip(1).map(item_j).collect())));
+                if level != "first" {
+                    o.push(("items", J::A(f.items.iter().skip(1).map(item_j).collect())));
+                }
             }
             Err(e) => {
                 o.push(("parsed", J::B(false)));
